@@ -5,7 +5,7 @@
      refs  = <<[y, x]>>      k-th YieldRef: the value it yielded and the value it returned
      froms = <<[c, j, x, y]>> every YieldFrom call that returned: caller c's j-th request x got y
      issued = number of YieldFrom calls made,  lifecycle = [startedBefore, startedAfter, doneBefore, doneAfter],
-     extras = [doNotation, yieldFromIO]  (observed = expected for DoNotation's result / YieldFromIO's value)
+     shape ("fresh": every caller is a new coroutine making one request), extras = [doNotation, yieldFromIO]  (observed = expected for DoNotation's result / YieldFromIO's value)
    Rules (the statement): the k-th request taken returns its x to the k-th YieldRef and y_k to exactly the caller
    that made it; each caller's answers come in its own order; nothing lost, duplicated or misrouted.            *)
 EXTENDS Integers, Sequences, FiniteSets, TLC, Json, IOUtils
@@ -16,6 +16,13 @@ Why(r) ==
       first == IF r.startVal # 0 THEN 1 ELSE 0            \* with StartWithVal the first YieldRef gets the start value
       Req(x) == {i \in DOMAIN F : F[i].x = x} IN
   IF r.kind # "ok" THEN r.kind
+  ELSE IF r.shape = "fresh" THEN                          \* thousands of callers with one request each: the same rules through set comparisons
+         IF Len(F) # r.issued THEN "a YieldFrom never returned"
+         ELSE IF Len(R) # r.issued THEN "requests and YieldRefs do not match in number (lost or duplicated)"
+         ELSE IF Cardinality({R[k].x : k \in DOMAIN R}) # Len(R) \/ Cardinality({F[i].x : i \in DOMAIN F}) # Len(F) THEN "one request was taken twice"
+         ELSE IF {<<R[k].x, R[k].y>> : k \in DOMAIN R} # {<<F[i].x, F[i].y>> : i \in DOMAIN F} THEN "a caller received an answer that was not the one yielded for its request"
+         ELSE IF \E k \in DOMAIN R : R[k].y # 100 + k THEN "the target's YieldRefs are not its sequence"
+         ELSE "ok"
   ELSE IF r.startVal # 0 /\ (R = <<>> \/ R[1].x # r.startVal) THEN "StartWithVal's value did not reach the first YieldRef"
   ELSE IF Len(F) # r.issued THEN "a YieldFrom never returned"
   ELSE IF Len(R) # r.issued + first THEN "requests and YieldRefs do not match in number (lost or duplicated)"
